@@ -34,7 +34,13 @@
 (*                          address window / shift produces, see TypeLayout) *)
 (*                          -> a call returns another type's program;        *)
 (*   "PublishBeforeCompile" the slot is written before the program exists    *)
-(*                          -> a reader returns an incomplete program.       *)
+(*                          -> a reader returns an incomplete program;       *)
+(*   "TwoWordSlot"          the production build's decoder table as it was   *)
+(*                          before the repair: a slot holds a Go interface   *)
+(*                          value (type word + data word) stored by two      *)
+(*                          plain writes -> a reader between them gets a     *)
+(*                          half-written value (nil-pointer panic in the     *)
+(*                          real code).                                      *)
 (*                                                                         *)
 (* Every behaviour's order of hook-point passages (`sched`) is exported; the *)
 (* harness replays it with a cooperative scheduler built on the hooks, on    *)
@@ -172,11 +178,20 @@ Publish(p) ==
      THEN /\ rw' = [rw EXCEPT ![f.side].waiting = @ \cup {p}]
           /\ stack' = SetTop(p, [f EXCEPT !.pc = "wlock"])
           /\ slot' = slot
+     ELSE IF "TwoWordSlot" \in Deviations /\ f.side = "dec"
+     THEN /\ slot' = [slot EXCEPT ![f.side][Idx(f.t)] = Half(f.t)]          \* first word written
+          /\ stack' = SetTop(p, [f EXCEPT !.pc = "store2"])
+          /\ rw' = rw
      ELSE /\ slot' = [slot EXCEPT ![f.side][Idx(f.t)] = f.prog]
           /\ stack' = SetTop(p, [f EXCEPT !.pc = "return"])
           /\ rw' = rw
   /\ Gate(p, "publish", Top(p).t)
   /\ UNCHANGED <<cmap, plan, hashDone, results, plan0>>
+Store2(p) ==
+  /\ stack[p] # <<>> /\ Top(p).pc = "store2"
+  /\ slot' = [slot EXCEPT ![Top(p).side][Idx(Top(p).t)] = Top(p).prog]      \* second word written
+  /\ stack' = SetTop(p, [Top(p) EXCEPT !.pc = "return"])
+  /\ UNCHANGED <<cmap, plan, rw, hashDone, results, sched, plan0>>
 WLock(p) ==
   /\ stack[p] # <<>> /\ Top(p).pc = "wlock"
   /\ LET s == Top(p).side IN
@@ -218,7 +233,7 @@ Finished == \A p \in Procs : stack[p] = <<>> /\ plan[p] = <<>>
 Done == Finished /\ UNCHANGED vars
 
 Step(p) == Start(p) \/ Guard(p) \/ RLock(p) \/ Read(p) \/ Compile(p) \/ Filter(p) \/ Filtered(p) \/ RUnlock(p)
-           \/ Publish(p) \/ WLock(p) \/ Store(p) \/ SLoad(p) \/ SPublish(p) \/ Return(p)
+           \/ Publish(p) \/ WLock(p) \/ Store(p) \/ Store2(p) \/ SLoad(p) \/ SPublish(p) \/ Return(p)
 Next == (\E p \in Procs : Step(p)) \/ Done
 Spec == Init /\ [][Next]_vars
 FairSpec == Spec /\ \A p \in Procs : WF_vars(Step(p))
@@ -229,7 +244,7 @@ FairSpec == Spec /\ \A p \in Procs : WF_vars(Step(p))
 (* scheduler acting at the hooks can produce.  Each hook precedes one group of shared accesses (slot read; the     *)
 (* private compilation; slot / map write), so every order of the shared accesses is still generated.               *)
 GateStep(p) == Guard(p) \/ Compile(p) \/ Publish(p) \/ SPublish(p)
-InternalStep(p) == Start(p) \/ RLock(p) \/ Read(p) \/ Filter(p) \/ Filtered(p) \/ RUnlock(p) \/ WLock(p) \/ Store(p) \/ SLoad(p) \/ Return(p)
+InternalStep(p) == Start(p) \/ RLock(p) \/ Read(p) \/ Filter(p) \/ Filtered(p) \/ RUnlock(p) \/ WLock(p) \/ Store(p) \/ Store2(p) \/ SLoad(p) \/ Return(p)
 GenNext == \/ \E p \in Procs : InternalStep(p)
            \/ (~ \E p \in Procs : ENABLED InternalStep(p)) /\ \E p \in Procs : GateStep(p)
            \/ Done
